@@ -56,6 +56,8 @@ fn identity<BL: Locale, L: Locale<BL>>(l: L) -> Value {
         "direction_display": l.direction().to_string(),
         "serde": serde_json::to_string(&l).ok(),
         "cookie": <FromToStringCodec as Encoder<L>>::encode(&l).ok(),
+        "serde_bincode_roundtrip": bincode::serialize(&l).ok().map(|b| matches!(bincode::deserialize::<L>(&b), Ok(x) if x == l)),
+        "serde_postcard_roundtrip": postcard::to_stdvec(&l).ok().map(|b| matches!(postcard::from_bytes::<L>(&b), Ok(x) if x == l)),
         "base_index": all.iter().position(|x| *x == base),
         "as_ref_base_index": all.iter().position(|x| x == as_ref_base),
         "from_base_roundtrip": L::from_base_locale(base) == l,
